@@ -250,10 +250,12 @@ where
     match bits_allocated {
         8 => {
             // 8-bit samples
+            // (as a byte string: in OW the bytes would have to be swapped
+            // when written in big endian)
             let pixels = decoded_pixeldata.data().to_vec();
             obj.put(DataElement::new_with_len(
                 tags::PIXEL_DATA,
-                VR::OW,
+                VR::OB,
                 Length::defined(pixels.len() as u32),
                 PrimitiveValue::from(pixels),
             ));
